@@ -36,6 +36,17 @@ def replay(path):
                 f.write(json.dumps(e) + "\n")
         runs = [dict(d["run"], line=1)]
     else:
+        crashes = []
+        if d.get("crash"):
+            try:
+                trace, runs, summ = run_harness([s], "replay_" + os.path.basename(path).replace(".json", ""), crashes=crashes)
+            except ToolError:
+                crashes = crashes or [{"signal": d["crash"]}]
+            if crashes:
+                log("VIOLATION property=%s replay=%s   (the real code crashed again with %s)" % (d.get("property"), path, crashes[0]["signal"]))
+                return 1
+            log("[replay] the scenario no longer crashes")
+            return 0
         trace, runs, summ = run_harness([s], "replay_" + os.path.basename(path).replace(".json", ""))
     os.makedirs(os.path.join(WORK, "tlc"), exist_ok=True)
     consts = {k: v for k, v in d.get("consts", {}).items()}
